@@ -122,6 +122,8 @@ def mutate(detector, slot: int = 0, bag=None, table=None, **kwargs) -> None:
     _put(detector, slot, fp)
     if isinstance(bag, list):
         bag.append(len(bag))
+    elif isinstance(bag, np.ndarray) and bag.flags.writeable:
+        bag *= 2.0  # in-place change of an array argument (calibration hands vector variables over as arrays)
     if isinstance(table, dict):
         table["touched"] = int(table.get("touched", 0)) + 1
 
